@@ -89,6 +89,8 @@ type Machine struct {
 	assertsChecked int
 	params         map[string]int
 	curFrame       *frame
+	pinned         map[string]any
+	inputNames     map[string]bool
 
 	// scheduler
 	sched
@@ -205,15 +207,38 @@ func (m *Machine) freshName(base string) string {
 	return fmt.Sprintf("%s!%d", clean, m.symSeq)
 }
 
+func (m *Machine) checkName(name string) {
+	if m.inputNames == nil {
+		m.inputNames = map[string]bool{}
+	}
+	if m.inputNames[name] {
+		panic(unsupported{"duplicate symbolic input name " + name})
+	}
+	m.inputNames[name] = true
+}
+
 func (m *Machine) symBV(name string, w int) *Term {
+	m.checkName(name)
 	t := MkVar(m.freshName(name), BV(w))
 	m.inputs = append(m.inputs, &inputRec{Name: name, Kind: "int", Term: t, W: w})
+	if pv, ok := m.pinned[name]; ok {
+		switch x := pv.(type) {
+		case int64:
+			m.assume(Eq(t, MkBV(w, uint64(x))))
+		case float64:
+			m.assume(Eq(t, MkBV(w, uint64(int64(x)))))
+		}
+	}
 	return t
 }
 
 func (m *Machine) symBool(name string) *Term {
+	m.checkName(name)
 	t := MkVar(m.freshName(name), BoolSort)
 	m.inputs = append(m.inputs, &inputRec{Name: name, Kind: "bool", Term: t})
+	if pv, ok := m.pinned[name].(bool); ok {
+		m.assume(Eq(t, MkBool(pv)))
+	}
 	return t
 }
 
@@ -223,9 +248,20 @@ func (m *Machine) symStr(name string, capN int) *Str {
 	for i := range bs {
 		bs[i] = MkVar(m.freshName(fmt.Sprintf("%s_b%d", name, i)), BV(8))
 	}
+	m.checkName(name)
 	s := &Str{n: n, b: bs}
 	m.assume(BvCmp("bvule", n, MkBV(64, uint64(capN))))
 	m.inputs = append(m.inputs, &inputRec{Name: name, Kind: "string", Str: s})
+	if pv, ok := m.pinned[name].(map[string]any); ok {
+		if arr, ok := pv["bytes"].([]int); ok {
+			m.assume(Eq(n, MkBV(64, uint64(len(arr)))))
+			for i, b := range arr {
+				if i < len(bs) {
+					m.assume(Eq(bs[i], MkBV(8, uint64(b))))
+				}
+			}
+		}
+	}
 	return s
 }
 
